@@ -119,6 +119,22 @@ def run(case: dict, lean: Lean) -> Outcome:
                 if math.isnan(want) and not math.isnan(v): failed.append(f"fill_missing=False: key {k} has an undefined {col} but reports {v}")
                 elif not ((math.isnan(v) and math.isnan(want)) or abs(v - want) < 1e-9): failed.append(f"{col} for key {k}: reported {v}, the metric itself gives {want}")
             elif not math.isnan(v): failed.append(f"fill_missing=False: key {k} has no test list but reports {col} = {v}")
+    # two analyses merged into one report the same as one analysis with all the metrics: the substituted defaults and the summary too
+    try:
+        raA = RunAnalysis(); raA.add_metric(cls(missing_scores=case["ms"], missing_truth=case["mt"])); raA.add_metric(rec)
+        raB = RunAnalysis(); raB.add_metric(ListLength()); raB.add_metric(custom, "custom", default=-1.0)
+        with np.errstate(all="ignore"):
+            rA = raA.measure(out, test); rB = raB.measure(out, test)
+        rA.merge_from(rB)
+        mf = rA.list_metrics(); ms_ = rA.list_summary()
+        for col in (mname, rname, "N", "custom"):
+            a_, b_ = mf[col].astype(float).reindex(lmf.index), lmf[col].astype(float)
+            if not ((a_.isna() & b_.isna()) | ((a_ - b_).abs() < 1e-9)).all(): failed.append(f"merged results: default-filled {col} differs from the single analysis")
+            for stat in ("mean", "median", "std"):
+                x, y = float(ms_.loc[col, stat]), float(summ.loc[col, stat])
+                if not ((math.isnan(x) and math.isnan(y)) or abs(x - y) < 1e-9): failed.append(f"merged results: summary {stat} of {col} = {x}, single analysis {y}")
+    except Exception as e:
+        failed.append(f"merging two analysis results raised {type(e).__name__}: {str(e)[:60]}")
     # default substitution and summary statistics (mean / median / std of the default-filled values)
     for l in used:
         k = (l["user"], l["run"]) if two else l["user"]
